@@ -42,6 +42,7 @@ class DeviceConfig:
     answer_connect: bool = True
     answer_disconnect: bool = True
     eof_after_disconnect_response: bool = True
+    coalesce_cuts: list[int] | None = None  # with coalesce_replies: split the coalesced chunk at these offsets
     coalesce_replies: bool = False          # all replies produced while handling one client write go into one chunk
     handlers: dict[str, Callable[["DeviceConn", Any], None]] = field(default_factory=dict)
     on_message: Callable[["DeviceConn", str, Any], None] | None = None
@@ -99,7 +100,7 @@ class DeviceConn:
             if coalesce:
                 out, self.outbox = self.outbox, None
                 if out:
-                    self.deliver_items(out, self.cfg.reply_delay)
+                    self.deliver_items(out, self.cfg.reply_delay, self.cfg.coalesce_cuts)
 
     def _on_noise(self, data: bytes) -> None:
         try:
@@ -242,7 +243,7 @@ class DeviceConn:
             return
         self.deliver_items([item], self.cfg.reply_delay if delay is None else delay)
 
-    def deliver_items(self, items: list[tuple[Any, ...]], delay: float) -> None:
+    def deliver_items(self, items: list[tuple[Any, ...]], delay: float, cuts: list[int] | None = None) -> None:
         """Put items on the wire at now+delay as ONE chunk (EOF/RST split it).  Noise frames are encrypted at that moment,
         so the nonce order always equals the wire order, as on a real device."""
         sock = self.sock
@@ -262,7 +263,14 @@ class DeviceConn:
                         buf = b""
                     sock.rx.append(b"" if it[0] == "eof" else it[1])
             if buf:
-                sock.rx.append(buf)
+                if cuts:
+                    prev = 0
+                    for c in [c for c in sorted(set(cuts)) if 0 < c < len(buf)]:
+                        sock.rx.append(buf[prev:c])
+                        prev = c
+                    sock.rx.append(buf[prev:])
+                else:
+                    sock.rx.append(buf)
 
         if self.immediate:
             put()
